@@ -117,3 +117,9 @@ CASES = [
          ensures=[("dfs", ens_fc)], timeout=20),
 ]
 MIN_OBLIGATIONS = 8
+
+
+from pyvc.api import bounded_via_script
+bounded = bounded_via_script("C17")
+ASSUMPTIONS.append("bounded stand-in (labelled, not a proof): every residue / chain / molecule view vs per-atom recomputation on all arrays of "
+                   "1..4 (5 thorough) atoms over a pool of 6 annotation rows and all bond sets on <= 4 atoms (bounded/C17.py)")
